@@ -186,6 +186,7 @@ def classify_pairs(sc: IndexScope, comp: ast.ListComp, rule_enum: str, obs: List
                 return TID
             return 'BAD'
         return None
+    sc.generator_kinds = dict(kinds)
     k1, k2 = kind_of(comp.elt.elts[0]), kind_of(comp.elt.elts[1])
     t = f"{f.name}: both components of a pair have the same kind (two train ids or two positions)"
     if k1 in (POS, TID) and k1 == k2:
@@ -269,7 +270,7 @@ def r14_2_index_kinds(ctx, rule: str = 'R14.2', rule_enum: str = 'R06.1', rule_s
                     ks = classify_pairs(sc, comp, rule_enum, obs, lambda ff: _order_sensitive(ctx, wm, ff), rule)
                     if ks:
                         sc.pairs[f"<loops {a_},{b_}>"] = (ks[0], ks[1], n)
-                        nested_loops.append((n, m, a_, b_, ks))
+                        nested_loops.append((n, m, a_, b_, ks, dict(getattr(sc, 'generator_kinds', {}))))
         if not sc.pairs:
             calls_pairs = any(isinstance(x, ast.Call) and sum(1 for a in x.args if isinstance(a, ast.Subscript) and
                               isinstance(a.value, ast.Name) and a.value.id == sc.trains) >= 2 for x in ast.walk(f.node))
@@ -308,6 +309,19 @@ def r14_2_index_kinds(ctx, rule: str = 'R14.2', rule_enum: str = 'R06.1', rule_s
                     kinds[tg.elts[0].id] = k1
                     kinds[tg.elts[1].id] = k2
                     loops.append(n)
+            elif isinstance(n, ast.Assign) and len(n.targets) == 1 and isinstance(n.targets[0], ast.Tuple) \
+                    and len(n.targets[0].elts) == 2 and all(isinstance(e, ast.Name) for e in n.targets[0].elts) \
+                    and isinstance(n.value, ast.Subscript) and isinstance(n.value.value, ast.Name) \
+                    and n.value.value.id in pair_alias and not isinstance(n.value.slice, ast.Slice):
+                # `a, b = pairs[k]`: one element of a pair list
+                k1, k2, _ = sc.pairs[pair_alias[n.value.value.id]]
+                kinds[n.targets[0].elts[0].id] = k1
+                kinds[n.targets[0].elts[1].id] = k2
+        for (_n, _m, a_, b_, _ks, gk) in nested_loops:
+            # the pair enumeration written as two loops: the loop variables themselves carry the generator kinds
+            for v in (a_, b_):
+                if v in gk:
+                    kinds[v] = gk[v]
 
         def kind_of(e: ast.AST) -> Optional[str]:
             if isinstance(e, ast.Name):
@@ -447,10 +461,24 @@ def r06_4_matrix_fills(ctx, rule: str = 'R06.4') -> List[Ob]:
     wm = wrapper_model(ctx)
     obs: List[Ob] = []
     for f in wm.funcs:
+        # loops whose body fills a matrix: `for a, b in <pairs>` or the same enumeration as two nested loops
+        # `for a in ..: for b in ..:` (the inner loop is then the one with the stores)
+        parents = {}
+        for n in ast.walk(f.node):
+            for c in ast.iter_child_nodes(n):
+                parents[id(c)] = n
         for loop in ast.walk(f.node):
-            if not (isinstance(loop, ast.For) and isinstance(loop.target, ast.Tuple) and len(loop.target.elts) == 2):
+            if not isinstance(loop, ast.For):
                 continue
-            a, b = [e.id if isinstance(e, ast.Name) else None for e in loop.target.elts]
+            if isinstance(loop.target, ast.Tuple) and len(loop.target.elts) == 2:
+                a, b = [e.id if isinstance(e, ast.Name) else None for e in loop.target.elts]
+            elif isinstance(loop.target, ast.Name) and isinstance(parents.get(id(loop)), ast.For) \
+                    and isinstance(parents[id(loop)].target, ast.Name) and loop in parents[id(loop)].body \
+                    and any(isinstance(x, ast.Name) and x.id == parents[id(loop)].target.id for x in ast.walk(loop.iter)):
+                # (a triangle: the inner range starts from the outer variable; a full n x m sweep is not a pair enumeration)
+                a, b = parents[id(loop)].target.id, loop.target.id
+            else:
+                continue
             stores = []
             for st in loop.body:
                 if isinstance(st, ast.Assign) and isinstance(st.targets[0], ast.Subscript) and \
@@ -527,4 +555,17 @@ def r06_4_matrix_fills(ctx, rule: str = 'R06.4') -> List[Ob]:
                 else:
                     obs.append(violation(rule, t, f.loc(loop), key=f"{fn}::diagonal",
                                          detail=f"for {i} in {ast.unparse(it)}: {ast.unparse(loop.body[0])}"))
+        # the same through the library call: np.fill_diagonal(M, 1.0) sets every diagonal entry
+        for n in ast.walk(f.node):
+            if isinstance(n, ast.Call) and ast.unparse(n.func) in ('np.fill_diagonal', 'numpy.fill_diagonal') and len(n.args) == 2 \
+                    and not n.keywords:
+                fn = _fn(f)
+                t = f"{f.name}: the whole diagonal of the SPIKE-Sync matrix is set to 1"
+                one = isinstance(n.args[1], ast.Constant) and n.args[1].value in (1, 1.0) and not isinstance(n.args[1].value, bool)
+                returned = any(isinstance(r, ast.Return) and r.value is not None and ast.unparse(r.value) == ast.unparse(n.args[0])
+                               for r in ast.walk(f.node))
+                if one and returned:
+                    obs.append(ok(rule, t, f.loc(n), construct=f"{fn}::diagonal"))
+                else:
+                    obs.append(violation(rule, t, f.loc(n), key=f"{fn}::diagonal", detail=ast.unparse(n)))
     return obs
